@@ -24,6 +24,7 @@ type xcase struct {
 	Pattern    int
 	Seed       int64
 	Spare      bool // slices are windows into larger arrays (cap > len) instead of cap == len
+	Arena      bool // dst, a and b are disjoint windows of ONE array (a caller's arena); with Spare their capacities end at the same byte
 }
 
 func fill(b []byte, pattern int, rng *rand.Rand) {
@@ -50,6 +51,9 @@ func runCase(c xcase) string {
 			return arr, arr[guard+off : guard+off+l]
 		}
 		return arr, arr[guard+off : guard+off+l : guard+off+l]
+	}
+	if c.Arena {
+		return runArena(c, rng)
 	}
 	arrA, a := mk(c.La, c.Oa)
 	arrB, b := mk(c.Lb, c.Ob)
@@ -112,6 +116,51 @@ func runCase(c xcase) string {
 	return ""
 }
 
+// runArena: the three slices are disjoint windows of one array, in the order a, dst, b (dst==a / dst==b as asked).
+func runArena(c xcase, rng *rand.Rand) string {
+	span := func(l, off int) int { return guard + off + l + guard }
+	arena := make([]byte, span(c.La, c.Oa)+span(c.Ld, c.Od)+span(c.Lb, c.Ob)+8)
+	fill(arena, c.Pattern, rng)
+	win := func(base, l, off int) (int, []byte) {
+		lo := base + guard + off
+		if c.Spare {
+			return lo, arena[lo : lo+l]
+		}
+		return lo, arena[lo : lo+l : lo+l]
+	}
+	_, a := win(0, c.La, c.Oa)
+	dLo, dst := win(span(c.La, c.Oa), c.Ld, c.Od)
+	bLo, b := win(span(c.La, c.Oa)+span(c.Ld, c.Od), c.Lb, c.Ob)
+	switch c.Alias {
+	case "dst==a":
+		dLo, dst = guard+c.Oa, a
+	case "dst==b":
+		dLo, dst = bLo, b
+	}
+	cp := append([]byte{}, arena...)
+	a0 := append([]byte{}, a...)
+	b0 := append([]byte{}, b...)
+	n := c.La
+	if c.Lb < n {
+		n = c.Lb
+	}
+	got := xor.XorBytes(dst, a, b)
+	if got != n {
+		return fmt.Sprintf("arena: returned %d, want %d", got, n)
+	}
+	for i := 0; i < n; i++ {
+		if dst[i] != a0[i]^b0[i] {
+			return fmt.Sprintf("arena: dst[%d]=%#x want %#x", i, dst[i], a0[i]^b0[i])
+		}
+	}
+	for i := range arena {
+		if (i < dLo || i >= dLo+n) && arena[i] != cp[i] {
+			return fmt.Sprintf("arena: byte %d of the shared array changed (dst[:n] is %d..%d)", i, dLo, dLo+n)
+		}
+	}
+	return ""
+}
+
 func main() {
 	tier := flag.String("tier", "quick", "")
 	seed := flag.Int64("seed", 1, "")
@@ -141,7 +190,7 @@ func main() {
 		r.Write(*out)
 		return
 	}
-	r.Rule = "bounded-exhaustive: every (len a, len b) in 0..N x 0..N plus every pair of a sparse set of 25 long lengths (block sizes 128, 256, 512, 1024, 4096 +-1 and 10 PRNG-chosen ones up to 5000; not in the sanitizer builds), start offsets of dst/a/b in 0..7 (all 8 for each slice with the others drawn from the PRNG, plus all 8 equal-offset triples), contents PRNG/0x00/0xFF, aliasing distinct|dst==a|dst==b, dst length min..min+9, slices with cap == len or as windows into larger arrays (spare capacity behind them); oracle = bytewise XOR from copies + unchanged guard zones; distinct = (len a, len b, alias, offset triple) combinations"
+	r.Rule = "bounded-exhaustive: every (len a, len b) in 0..N x 0..N plus every pair of a sparse set of 25 long lengths (block sizes 128, 256, 512, 1024, 4096 +-1 and 10 PRNG-chosen ones up to 5000; not in the sanitizer builds), start offsets of dst/a/b in 0..7 (all 8 for each slice with the others drawn from the PRNG, plus all 8 equal-offset triples), contents PRNG/0x00/0xFF, aliasing distinct|dst==a|dst==b, dst length min..min+9, slices with cap == len or as windows into larger arrays (spare capacity behind them), in a quarter of the cases all three as disjoint windows of one shared array; oracle = bytewise XOR from copies + unchanged guard zones; distinct = (len a, len b, alias, offset triple) combinations"
 	r.Assumptions = []string{"xor_arm.go/.s cannot execute on this amd64 sandbox: not covered", "partial overlaps other than dst==a / dst==b are outside the statement"}
 	n := 100
 	if *tier == "thorough" {
@@ -202,7 +251,7 @@ func main() {
 				}
 				for off := 0; off < 8; off++ {
 					for which := 0; which < 4; which++ {
-						c := xcase{La: la, Lb: lb, Ld: mn + rng.Intn(10), Alias: alias, Pattern: rng.Intn(4) % 3, Seed: rng.Int63(), Spare: rng.Intn(2) == 0}
+						c := xcase{La: la, Lb: lb, Ld: mn + rng.Intn(10), Alias: alias, Pattern: rng.Intn(4) % 3, Seed: rng.Int63(), Spare: rng.Intn(2) == 0, Arena: rng.Intn(4) == 0}
 						c.Oa, c.Ob, c.Od = rng.Intn(8), rng.Intn(8), rng.Intn(8)
 						switch which {
 						case 0:
